@@ -114,7 +114,9 @@ def ApplicableAttr.getActionOr (a : ApplicableAttr) (fieldPath : Option TS) (ctx
       | some v => .ok (quoteAction v fieldPath ctx)
       | none => .ok or
     | none => .ok or
-  | .ghost _ => panicAt "expand.rs:ApplicableAttr::get_action_or:unreachable(11)"
+  | .ghost g => match g.action with
+    | some v => .ok (quoteAction v none ctx)
+    | none => .ok or
 
 def getStuffInner (member : Option Member) (action : Option TS) (obj : TS) (fieldPath : Member → TS)
     (ctx : ImplContext) (or : Member) : E TS :=
